@@ -14,7 +14,11 @@ CFG = dict(
         "hand-written pure models PolyVerif/Model/{Mesh,MeshOps,Primitives}.lean of modeling/mesh.go, modeling/meshops/*.go, "
         "modeling/primitives/*.go; tied to the code on every run by exact comparison of index lists (primitives) and of result "
         "shapes (operations) on generated inputs"],
-    residue=[],
+    residue=["index arithmetic of extrude/*.go, marching/canvas.go (LookupOrAdd), triangulation/bowyer_watson.go, repeat/{circle,line,curve,fibonacci}.go: "
+             "no theorem yet; covered by the WF oracle evaluated on every mesh these generators return",
+             "LaplacianSmooth on Line/LineLoop topologies not modelled (VertexNeighborTable indexes m.indices[0] of an empty line loop: runtime panic, observation)",
+             "material ranges are not part of WF; negative indices are unrepresentable in the model (oracle answers false)",
+             "the correspondence is differential testing bounded by the generators (distribution in this file)"],
     assumptions=["WF is the property's own definition: one common attribute length, every index < that length, index count a "
                  "multiple of the primitive size (triangle 3, quad 4, line 2); material ranges are not part of WF"],
 )
